@@ -203,6 +203,10 @@ def _sibc(w):
     return [1, mask(w), 1 << (w - 1)]
 
 
+def _sib1(w):
+    return [mask(w)]
+
+
 _probe_cache = {}
 
 
@@ -287,8 +291,8 @@ def fam_iter(fam, params, keep):
         for e in FGen(widths, keep).depth1(w):
             yield e
     elif fam == "d2":
-        widths, w, rich, nids, k, K = params
-        g = FGen(widths, keep, nids=nids, rich_consts=rich, sib_consts=_sibc)
+        widths, w, rich, nids, sib, k, K = params
+        g = FGen(widths, keep, nids=nids, rich_consts=rich, sib_consts=_sibc if sib == "3c" else _sib1)
         pool = g.depth1 if rich else g.depth1_core
         for e in g.depth2_spine(w, deep_pool=pool, k=k, K=K):
             yield e
@@ -348,6 +352,7 @@ class MemCtx(object):
         self.idx = idx
         content = MEMS[idx]
         self.tables = {}
+        self._keys = {}
         for ps, addrs in touched.items():
             m = mask(ps)
             t = {}
@@ -364,7 +369,10 @@ class MemCtx(object):
         return t.get(a, MEM_DEFAULT)
 
     def key(self, ps):
-        return (self.idx, ps, tuple(sorted(self.tables.get(ps, ()))))
+        k = self._keys.get(ps)
+        if k is None:
+            k = self._keys[ps] = (self.idx, ps, tuple(sorted(self.tables.get(ps, ()))))
+        return k
 
 
 def mem_ptr_sizes(e):
@@ -415,6 +423,7 @@ class Z3Fold(object):
         self._var = {}
         self._arrvar = {}
         self._arr = {}
+        self._closer = None
 
     def val(self, v, w):
         k = (v, w)
@@ -456,12 +465,15 @@ class Z3Fold(object):
     def fold(self, term, pairs):
         """pairs: [(z3 constant, z3 closed term)] -> int value of the closed term after simplification."""
         z3 = self.z3
-        c = self.c
         n = len(pairs)
-        s = term.as_ast()
+        frm = (z3.Ast * n)(*[p[0].as_ast() for p in pairs])
+        to = (z3.Ast * n)(*[p[1].as_ast() for p in pairs])
+        return self._fold(term.as_ast(), n, frm, to)
+
+    def _fold(self, s, n, frm, to):
+        z3 = self.z3
+        c = self.c
         if n:
-            frm = (z3.Ast * n)(*[p[0].as_ast() for p in pairs])
-            to = (z3.Ast * n)(*[p[1].as_ast() for p in pairs])
             s = z3.Z3_substitute(c, s, n, frm, to)
         z3.Z3_inc_ref(c, s)
         try:
@@ -476,12 +488,40 @@ class Z3Fold(object):
         finally:
             z3.Z3_dec_ref(c, s)
 
-    def close_and_fold(self, term, e, ids, vals, memctx):
-        pairs = [(self.var(str(i), i.size), self.val(v, i.size)) for i, v in zip(ids, vals)]
+    def closer(self, term, e, ids, memctx):
+        """-> f(vals): the value of term with every identifier replaced by its numeral and every memory array of e
+        replaced by the K/Store array of memctx (substitution tables built once per expression and memory)."""
+        z3 = self.z3
+        frm_refs = [self.var(str(i), i.size) for i in ids]
+        to_fixed = []
         if memctx is not None:
             for ps in mem_ptr_sizes(e):
-                pairs.append((self.arrvar(ps), self.arr(memctx, ps)))
-        return self.fold(term, pairs)
+                frm_refs.append(self.arrvar(ps))
+                to_fixed.append(self.arr(memctx, ps))
+        n = len(frm_refs)
+        nid = len(ids)
+        frm = (z3.Ast * n)(*[r.as_ast() for r in frm_refs])
+        to = (z3.Ast * n)()
+        for k, r in enumerate(to_fixed):
+            to[nid + k] = r.as_ast()
+        widths = [i.size for i in ids]
+        ast = term.as_ast()
+        val = self.val
+        fold = self._fold
+        keep = (term, frm_refs, to_fixed)
+
+        def run(vals, keep=keep):
+            for k in range(nid):
+                to[k] = val(vals[k], widths[k]).ast
+            return fold(ast, n, frm, to)
+        return run
+
+    def close_and_fold(self, term, e, ids, vals, memctx):
+        key = (term.get_id(), id(memctx))
+        c = self._closer
+        if c is None or c[0] != key or c[1] is not memctx or c[2] is not term:
+            c = self._closer = (key, memctx, term, self.closer(term, e, ids, memctx))
+        return c[3](vals)
 
 
 _folder = []
@@ -696,23 +736,33 @@ def judge(backend, e, st, vs, quick, only=None):
     seen = set()
     cache = None
     for memidx, vl in todo:
-        for vals in vl:
-            memctx = None
-            try:
-                if hasmem:
-                    touched = {}
-                    content = MEMS[memidx]
+        # pass 1: reference values; with memory, the addresses read under every valuation are collected and ONE
+        # finite memory (window around all of them, default byte elsewhere) serves the reference and the backend
+        wants = []
+        memctx = None
+        if hasmem:
+            touched = {}
+            content = MEMS[memidx]
 
-                    def rec(ps, a, touched=touched, content=content):
-                        touched.setdefault(ps, set()).add(a)
-                        return content(ps, a)
-                    want = fn(vals, rec)
-                    memctx = MemCtx(memidx, touched)
-                else:
-                    want = fn(vals, refsem.no_mem)
+            def rec(ps, a, touched=touched, content=content):
+                touched.setdefault(ps, set()).add(a)
+                return content(ps, a)
+            memfn = rec
+        else:
+            memfn = refsem.no_mem
+        for vals in vl:
+            try:
+                wants.append(fn(vals, memfn))
             except refsem.Undefined:
+                wants.append(None)
+        if hasmem:
+            memctx = MemCtx(memidx, touched)
+        for vals, want in zip(vl, wants):
+            if want is None:
                 st["undefined_skipped"] += 1
                 continue
+            if hasmem and only is None and fn(vals, memctx.read) != want:
+                raise AssertionError("finite memory disagrees with the content function on %s %r" % (e, vals))
             try:
                 got = backend_value(backend, h, e, ids, vals, memctx)
             except SkipEval as ex:
